@@ -1,11 +1,11 @@
 package main
 
 import (
-	"runtime"
 	"flag"
 	"fmt"
 	"os"
 	"path/filepath"
+	"runtime"
 	"runtime/debug"
 	"sort"
 	"sync"
@@ -16,15 +16,15 @@ import (
 type Ctx struct {
 	*Run
 	Thorough bool
-	Arch     string            // GOARCH of this pass ("" = amd64)
+	Arch     string // GOARCH of this pass ("" = amd64)
 	// FollowDelegates: Fn resolves a method that only forwards to another declared function (the embedded type's method it used
 	// to duplicate) to that function. Set by the properties whose rules are about what a method does, not about how it is wired.
 	FollowDelegates bool
-	Overlay  map[string][]byte // file overlays (checker self-test variants)
-	mu       sync.Mutex
-	mods     map[string]*Module
-	ixs      map[string]*PkgIndex
-	les      map[string]*LockEngine
+	Overlay         map[string][]byte // file overlays (checker self-test variants)
+	mu              sync.Mutex
+	mods            map[string]*Module
+	ixs             map[string]*PkgIndex
+	les             map[string]*LockEngine
 }
 
 // Mod loads (once) the module at dir relative to the repository root.
@@ -182,10 +182,14 @@ func execPass(run *Run, pd *PropDoc, arch string, overlay map[string][]byte) {
 	// per-pass registries (passes run one after the other; holding the previous pass's packages would keep them alive)
 	declRegistry = sync.Map{}
 	guardGaps = map[*PkgIndex]map[string]string{}
+	resetNormalised()
+	definedCache = sync.Map{}
 	c.Preload(pd.Modules...)
 	pd.Fn(c)
 	declRegistry = sync.Map{}
 	guardGaps = map[*PkgIndex]map[string]string{}
+	resetNormalised()
+	definedCache = sync.Map{}
 	runtime.GC()
 }
 
